@@ -522,7 +522,9 @@ class Real(Dimension):
 
         if hasattr(self, "_kde"):
             samples = self._kde.resample(n_samples, rng).reshape(-1)
-            samples = np.clip(samples, self.low, self.high)
+            # the kernel density is fitted on, and sampled in, the transformed space
+            low, high = self.transform([self.low, self.high])
+            samples = np.clip(samples, low, high)
         else:
             samples = self._rvs.rvs(size=n_samples, random_state=rng)
 
